@@ -17,6 +17,12 @@ def flags_for(arch):
     if arch == 'scalar': return BASEFLAGS + ['-march=alderlake', '-mno-avx512f']
     return BASEFLAGS + (M512 if ARCH[arch][2] == 512 else M256)
 
+def native_flags(arch):
+    """flags for natively *executed* builds (replay, translator validation): the same as the lowering flags minus the ISA extensions this
+    host lacks (with -mfma4 enabled the back end may encode llvm.fma as an FMA4 instruction -> SIGILL on Intel)"""
+    return [f for f in flags_for(arch) if f not in ('-mfma4', '-mavx512er', '-mavx512pf', '-ferror-limit=0')]
+
+
 # tag, C++ spelling, register bits, can the host execute it
 ARCHS = [
     ('sse2', 'xsimd::sse2', 128, True), ('sse3', 'xsimd::sse3', 128, True), ('ssse3', 'xsimd::ssse3', 128, True),
